@@ -1210,3 +1210,12 @@ func asBool(o Object) Boolean {
 //@ ensures [C13.token.eof] result1 == io.EOF ==> s.err == io.EOF
 //@ func (*Interpreter).executeScanner
 //@ ensures [C13.run.clean] result == nil ==> s.err == io.EOF
+
+// C13: a read fault (an error other than io.EOF from the underlying reader,
+// ghost flag rfault()) is stored by refill in s.err -- from where it is handed
+// to every later caller (C13.refill.sticky) and cannot turn into io.EOF
+// (C13.*.eof) -- and is returned at once unless data came with it.
+//@ func (*scanner).refill
+//@ ensures [C13.refill.rfault] !old(rfault()) && rfault() ==> s.err != nil && s.err != io.EOF
+//@ ensures [C13.refill.rfault.now] !old(rfault()) && rfault() && s.used == 0 ==> result != nil && result == s.err
+//@ ensures [C13.refill.noread] old(s.err) != nil ==> rfault() == old(rfault())
